@@ -80,7 +80,9 @@ Record LG (s0 s : state) (evs : list event) : Prop := {
             ev_node e = Some n -> ev_node e' = Some n -> EvNec n ∈ mid;
   lg_keep : forall n, inGraph (nd s n) = true -> EvNec n ∉ evs -> isDone s n = false ->
             value (nd s n) = value (nd s0 n) /\ recomputedAt (nd s n) = recomputedAt (nd s0 n) /\
-            changedAt (nd s n) = changedAt (nd s0 n)
+            changedAt (nd s n) = changedAt (nd s0 n);
+  lg_val : forall n, inGraph (nd s n) = true -> EvNec n ∉ evs -> changedAt (nd s n) <> stabNum s ->
+            value (nd s n) = value (nd s0 n)
 }.
 
 Definition LGx (s0 : state) (base : list event) (s : state) : Prop :=
@@ -91,6 +93,7 @@ Proof.
   constructor.
   - intros pre e post n E. destruct pre; discriminate E.
   - intros pre e mid e' post n E. destruct pre; discriminate E.
+  - auto.
   - auto.
 Qed.
 
@@ -107,10 +110,11 @@ Qed.
 Lemma LG_ext s0 s s' evs :
   (forall n, nd s' n = nd s n) -> stabNum s' = stabNum s -> LG s0 s evs -> LG s0 s' evs.
 Proof.
-  intros Hnd Hk [A B C]. constructor.
+  intros Hnd Hk [A B C D]. constructor.
   - intros pre e post n E1 E2 E3 Hg. rewrite (ev_ok_ext s s' e Hnd Hk). rewrite Hnd in Hg. eauto.
   - exact B.
   - intros n Hg Hn Hd. unfold isDone in Hd. rewrite Hnd, Hk in *. apply (C n Hg Hn Hd).
+  - intros n Hg Hn Hc. rewrite Hnd, Hk in *. apply (D n Hg Hn Hc).
 Qed.
 
 (** * The recompute of a lhs-change node *)
@@ -118,7 +122,7 @@ Lemma LG_bind s0 s b s' evs new :
   PInv s -> PInv s' -> LInvC s (Some b) -> bfr s b s' -> log s' = new ++ log s -> Forall quiet new ->
   LG s0 s evs -> LG s0 s' (new ++ evs).
 Proof.
-  intros P P' L F El Hq [A B C].
+  intros P P' L F El Hq [A B C D].
   assert (HWb : inW s (Some b) b = true).
   { unfold inW. rewrite (bool_decide_eq_true_2 _ eq_refl). apply orb_true_r. }
   assert (Hb_nd : isDone s b = false) by (apply (lc_B _ _ L b b HWb), rtc_refl).
@@ -164,6 +168,13 @@ Proof.
     { unfold isDone in *. rewrite (bx_k _ _ _ F), E1 in Hd'. exact Hd'. }
     destruct (C n Hg ltac:(intros Hin; apply Hnec, elem_of_app; auto) Hd) as (C1 & C2 & C3).
     destruct (bx_old _ _ _ F n (has_inGraph _ _ Hg)) as (_ & Ev & _). repeat split; congruence.
+  - intros n Hg' Hnec Hc'.
+    assert (Hg : inGraph (nd s n) = true).
+    { apply (reg_back s s' new n P P' El Hg'). intros Hin. apply Hnec, elem_of_app. auto. }
+    assert (Hne : n <> b) by (intros ->; apply Hc'; rewrite (bx_changed _ _ _ F), (bx_k _ _ _ F); reflexivity).
+    destruct (Hkeep n Hg' Hne) as [E1 E2].
+    destruct (bx_old _ _ _ F n (has_inGraph _ _ Hg)) as (_ & Ev & _). rewrite Ev.
+    apply (D n Hg); [intros Hin; apply Hnec, elem_of_app; auto|]. rewrite <- E2, <- (bx_k _ _ _ F). exact Hc'.
 Qed.
 
 (** * The recompute of any other node *)
@@ -266,7 +277,14 @@ Section StepL.
 
   Lemma step_LG : exists new, log s' = new ++ log s /\ LG s0 s' (new ++ evs).
   Proof.
-    destruct G as [A B C].
+    destruct G as [A B C D].
+    assert (Hvalk : forall n, inGraph (nd s' n) = true -> EvNec n ∉ evs -> changedAt (nd s' n) <> stabNum s' ->
+              value (nd s' n) = value (nd s0 n)).
+    { intros n Hg' Hnec Hc'. rewrite (sf_inGraph _ _ F) in Hg'. destruct (decide (n = m)) as [->|Hne].
+      - destruct (sq_case _ _ _ _ PP) as [Cc|R].
+        + rewrite (cp_value _ _ _ _ Cc). apply (C m Hg' Hnec Hmnd).
+        + exfalso. apply Hc'. rewrite Hk'. apply (rq_changed _ _ _ _ R).
+      - rewrite (Hnd_ne n Hne), Hk' in *. apply (D n Hg' Hnec Hc'). }
     assert (Hkeep : forall n, inGraph (nd s' n) = true -> EvNec n ∉ evs -> isDone s' n = false ->
               value (nd s' n) = value (nd s0 n) /\ recomputedAt (nd s' n) = recomputedAt (nd s0 n) /\
               changedAt (nd s' n) = changedAt (nd s0 n)).
@@ -277,7 +295,7 @@ Section StepL.
     { intros pre e post n E Hn Hnec Hg'. rewrite (sf_inGraph _ _ F) in Hg'.
       apply (ev_ok_keep e n Hn Hg'). apply (A pre e post n E Hn Hnec Hg'). }
     destruct step_events as (new & Hl & [->|(e0 & -> & Hn0 & Hok0)]).
-    - exists []. split; [exact Hl|]. constructor; [exact Hold|exact B|exact Hkeep].
+    - exists []. split; [exact Hl|]. constructor; [exact Hold|exact B|exact Hkeep|exact Hvalk].
     - exists [e0]. split; [exact Hl|]. constructor.
       + intros pre e post n E Hn Hnec Hg'. destruct pre as [|p pre]; simpl in E.
         * injection E as <- _. exact Hok0.
@@ -290,6 +308,7 @@ Section StepL.
           pose proof (ev_ok_done s e' m Hn' Hok) as Hd. rewrite Hmnd in Hd. discriminate.
         * injection E as <- E. apply (B pre e mid e' post n E Hn Hn').
       + intros n Hg' Hnec Hd'. apply (Hkeep n Hg'); [|exact Hd']. intros Hin. apply Hnec. right. exact Hin.
+      + intros n Hg' Hnec Hc'. apply (Hvalk n Hg'); [|exact Hc']. intros Hin. apply Hnec. right. exact Hin.
   Qed.
 End StepL.
 
@@ -374,6 +393,10 @@ Record PassLog (s s' : state) : Prop := {
       changedAt (nd s' n) = changedAt (nd s n);
   (* C03: whoever is owed a recompute when the pass returns is an Always node; a registered node
      one of whose inputs changed in the pass has run in it *)
+  (* C13: a node that stayed registered and whose value differs from the one it had when the pass
+     began is stamped as changed in this pass *)
+  pl_changed : forall evs n, log s' = evs ++ log s -> inGraph (nd s' n) = true -> EvNec n ∉ evs ->
+      value (nd s' n) <> value (nd s n) -> changedAt (nd s' n) = stabNum s;
   pl_stale : forall n, inGraph (nd s' n) = true -> isStale s' n = true -> nkind (nd s' n) = KAlways;
   pl_owed : forall n p, inGraph (nd s' n) = true -> p ∈ parents (nd s' n) ->
       changedAt (nd s' p) = stabNum s -> recomputedAt (nd s' n) = stabNum s
@@ -413,7 +436,7 @@ Proof.
   { intros evs E. apply (app_inv_tail (log s)). rewrite <- E, Hlog, <- !app_assoc. reflexivity. }
   assert (Hvo : forall p, valueOf s' p = valueOf sL p) by (intros p; apply valueOf_nodes, Hn).
   pose proof (PInv_Struct sL PL) as HSL.
-  destruct GL as [A B C].
+  destruct GL as [A B C D].
   constructor.
   - intros evs pre e post n E1 E2 Hn' Hnec Hg. rewrite (Hevs evs E1) in E2.
     destruct (split_quiet_l _ _ pre e post E2 HQ ltac:(congruence)) as (pre2 & -> & E3).
@@ -440,6 +463,10 @@ Proof.
     assert (Hd : isDone sL n = false).
     { unfold isDone. apply Z.eqb_neq. rewrite HkLs. exact Hr. }
     apply (C n Hg); [|exact Hd]. intros Hin. apply Hnec. apply elem_of_app. right. apply elem_of_app. left. exact Hin.
+  - intros evs n E1 Hg Hnec Hv. rewrite (Hevs evs E1) in Hnec. rewrite Hnd in *.
+    destruct (Z.eq_dec (changedAt (nd sL n)) (stabNum s)) as [Ec|Ec]; [exact Ec|exfalso].
+    apply Hv. apply (D n Hg); [|rewrite HkLs; exact Ec].
+    intros Hin. apply Hnec. apply elem_of_app. right. apply elem_of_app. left. exact Hin.
   - intros n Hg Hs. rewrite Hnd in *. rewrite (isStale_nodes sL s' n Hn) in Hs.
     exact (proj1 (endC_stale_always sL PL LL Hemp n Hg Hs)).
   - intros n p Hg Hp Hc. rewrite !Hnd in *.
